@@ -27,6 +27,7 @@ import ForML.Lemmas.C14Lazy
 import ForML.Lemmas.C14Ctx
 import ForML.Lemmas.C14Uses
 import ForML.Lemmas.C14V1
+import ForML.Lemmas.C14Hash
 
 namespace ForML.PushDown
 open ForML.Dsl
@@ -124,6 +125,46 @@ theorem C14_factors_total_lenient (p : Pred) : ∃ m, factorsP true p = .ok m :=
     obtain ⟨l, hl⟩ := iha
     obtain ⟨r, hr⟩ := ihb
     exact ⟨orF l r, by simp [factorsP, hl, hr]⟩
+
+/-! ### `Factors.merge` of /repo HEAD: sameness of two factors decided by `hash()` (finding C14-X7)
+
+The development above (`factorsP`, structural identity) is the code as repaired by fixes/C14-merge-hash-dedup.diff. -/
+
+/-- with structural identity as the sameness test the parametrised `merge` is the one of the development -/
+theorem C14_factors_structural (len : Bool) (p : Pred) : factorsPG (fun a b => decide (a = b)) len p = factorsP len p :=
+  factorsPG_structural len p
+
+/-- `C14_factors` for the factorisation of /repo HEAD (`hash(left[k]) != hash(right[k])`) — expected not to hold -/
+def C14_factors_hash_full : Prop :=
+  ∀ (len : Bool) (S : Sem) (p : Feature) (m : FMap), factorsOfHash len p = .ok m → ∀ (t : Source) (f : Feature),
+    (t, f) ∈ m → ∀ env, eval S env p = .bool true → eval S env f = .bool true
+
+def tH : Source := .table "A" [("x", .integer)]
+def gtLit (n : Int) : Feature := binop .gt (.elem tH "x") (.lit (.int n))
+
+/-- `hash(-1) == hash(-2)`: `(A.x > -1) | (A.x > -2)` is factorised to `A.x > -1` alone, which the row `x = -1` fails
+although it satisfies the condition; the same with `2^61 - 1` and `0` -/
+theorem C14_factors_hash_counterexample : ¬ C14_factors_hash_full := by
+  intro h
+  have := h true simpleSem (binop .or (gtLit (-1)) (gtLit (-2))) [(tH, gtLit (-1))] rfl tH (gtLit (-1))
+    (by simp) [(tH, [("x", .int (-1))])] (by decide)
+  revert this
+  decide
+
+example : (factorsOfHash true (binop .or (gtLit 2305843009213693951) (gtLit 0))).toOption = some [(tH, gtLit 2305843009213693951)] ∧
+    (factorsOf true (binop .or (gtLit 2305843009213693951) (gtLit 0))).toOption =
+      some [(tH, binop .or (gtLit 2305843009213693951) (gtLit 0))] ∧
+    (factorsOfHash true (binop .or (gtLit 1) (gtLit 2))).toOption = (factorsOf true (binop .or (gtLit 1) (gtLit 2))).toOption := by
+  decide
+
+/-- **proved part**: on every condition whose atoms contain no integer literal that differs from its own CPython hash
+(no `-1`, nothing beyond ±(2^61 - 2)) the hash test changes nothing — `C14_factors` and everything built on it apply -/
+theorem C14_factors_hash_partial (len : Bool) (p : Feature) (hp : plainP (toPred p) = true) :
+    factorsOfHash len p = factorsOf len p :=
+  (factorsPG_hash_plain len (toPred p) hp).1
+
+example : plainP (toPred (binop .or (gtLit 1) (binop .and (gtLit (-2)) (gtLit 3)))) = true ∧
+    plainP (toPred (binop .or (gtLit (-1)) (gtLit (-2)))) = false := by decide
 
 /-! ### row filter -/
 
